@@ -164,6 +164,8 @@ func anyString(v any, pred func(string) bool) bool {
 	return false
 }
 
+// (the former excuses jqlit-empty-string / jqlit-negative-number are gone: from_jq was repaired in
+// /repo commit fc0fdced, a failure of that class is a PROPFAIL again)
 func anyNumber(v any, pred func(neg bool) bool) bool {
 	switch v := v.(type) {
 	case int:
@@ -211,15 +213,6 @@ func anyArray(v any, pred func([]any) bool) bool {
 
 func knownLawFailure(name string, x any) string {
 	switch name {
-	case "jqlit", "jqlit2":
-		// format/json/jq.jq from_jq: `$v.term.str.str` is null for the empty string literal
-		if anyString(x, func(s string) bool { return s == "" }) {
-			return "jqlit-empty-string"
-		}
-		// … and a negative number literal parses as TermTypeUnary, which from_jq rejects
-		if anyNumber(x, func(neg bool) bool { return neg }) {
-			return "jqlit-negative-number"
-		}
 	case "yaml":
 		// gopkg.in/yaml.v3 writes a multi-line string as a block scalar; when the string starts
 		// with a line feed, a space or U+2028/U+2029 the block scalar reads back without its first line feed,
